@@ -45,6 +45,7 @@ class Driver(object):
     self.p = params
     self.lp = vloop.loop()
     self.net = simnet.new_net()
+    self.net.max_recv, self.net.max_send = params.get('max_recv'), params.get('max_send')
     self.net.io_faults = dict(faults or {})
     self.server_log = []
     H = hello()
@@ -426,6 +427,13 @@ def scripts():
   out.append(('mux peer stops answering pings with requests in flight',
               {'transport': 'mux', 'withhold': ['ping2', 'r2', 'r3'],
                'script': [['req', 'r1'], ['wait', 29.0], ['req', 'r2'], ['req', 'r3', 0.5025], ['wait', 8.0, 0.5]]}))
+  # replies that arrive a few bytes at a time: a fault can hit in the middle of a header or body
+  out.append(('thrift, the kernel hands out 5 bytes per recv',
+              {'transport': 'thrift', 'withhold': [], 'max_recv': 5,
+               'script': [['req', 'r1'], ['wait', 0.3, 0.05], ['req', 'r2'], ['wait', 0.3, 0.05]]}))
+  out.append(('mux, the kernel hands out 5 bytes per recv',
+              {'transport': 'mux', 'withhold': [], 'max_recv': 5,
+               'script': [['req', 'r1'], ['req', 'r2'], ['wait', 0.3, 0.05], ['req', 'r3'], ['wait', 0.3, 0.05]]}))
   # a request that arrives with its deadline already in the past
   out.append(('thrift, a request whose deadline has already passed, then ordinary requests',
               {'transport': 'thrift', 'withhold': [],
